@@ -502,82 +502,252 @@ func (s *State) distTarget(t *Table) (*Table, error) {
 	return lt, nil
 }
 
-// Query evaluates a recognised SELECT/SHOW statement: column names and rows (values as strings).
-func (s *State) Query(cur string, st *Stmt) (cols []string, types []string, rows [][]string, err error) {
-	readable := func(q QName) (*Table, error) {
-		db, n, err := s.resolve(cur, q)
-		if err != nil {
-			return nil, err
-		}
-		t := s.DBs[db][n]
-		if t == nil {
-			return nil, chErr(60, "UNKNOWN_TABLE", n, "Table %s.%s does not exist", db, n)
-		}
-		if t.Engine == "Distributed" {
-			return s.distTarget(t)
-		}
-		if t.Kind != "table" || !(t.IsMergeTree()) {
-			return nil, unknown("SELECT from %s %s (engine %s)", t.Kind, t.Name, t.Engine)
-		}
-		return t, nil
+// ReadTarget resolves the table a SELECT reads (a Distributed table to its local table).
+func (s *State) ReadTarget(cur string, q QName) (*Table, error) {
+	db, n, err := s.resolve(cur, q)
+	if err != nil {
+		return nil, err
 	}
-	need := func(t *Table, names ...string) error {
-		for _, c := range names {
-			if t.col(c) < 0 {
-				return chErr(47, "UNKNOWN_IDENTIFIER", t.Name, "Missing columns: '%s' while processing query", c)
-			}
-		}
-		return nil
+	t := s.DBs[db][n]
+	if t == nil {
+		return nil, chErr(60, "UNKNOWN_TABLE", n, "Table %s.%s does not exist", db, n)
 	}
-	switch st.Kind {
-	case "select_max_ver":
-		t, err := readable(st.Name)
+	if t.Engine == "Distributed" {
+		return s.distTarget(t)
+	}
+	if t.Kind != "table" || !(t.IsMergeTree()) {
+		return nil, unknown("SELECT from %s %s (engine %s)", t.Kind, t.Name, t.Engine)
+	}
+	return t, nil
+}
+
+func numericType(ty string) bool {
+	return strings.HasPrefix(ty, "UInt") || strings.HasPrefix(ty, "Int")
+}
+
+// cmpValues: equality of a stored value and a literal (numbers by value).
+func sameValue(stored, lit string, numeric bool) bool {
+	if numeric {
+		a, ea := strconv.ParseUint(stored, 10, 64)
+		b, eb := strconv.ParseUint(lit, 10, 64)
+		if ea == nil && eb == nil {
+			return a == b
+		}
+	}
+	return stored == lit
+}
+
+// evalAgg computes one aggregate over the rows of a group; an empty group yields the type's default.
+func evalAgg(t *Table, e SelExpr, rows [][]string) (val, typ string, err error) {
+	colIdx := func(name string) (int, error) {
+		i := t.col(name)
+		if i < 0 {
+			return -1, chErr(47, "UNKNOWN_IDENTIFIER", t.Name, "Missing columns: '%s' while processing query", name)
+		}
+		return i, nil
+	}
+	def := func(ty string) string {
+		if numericType(ty) {
+			return "0"
+		}
+		return ""
+	}
+	switch e.Func {
+	case "count":
+		return strconv.Itoa(len(rows)), "UInt64", nil
+	case "max", "min", "any":
+		i, err := colIdx(e.Args[0])
 		if err != nil {
-			return nil, nil, nil, err
+			return "", "", err
 		}
-		if err := need(t, "k", "ver"); err != nil {
-			return nil, nil, nil, err
+		ty := t.Columns[i].Type
+		if len(rows) == 0 {
+			return def(ty), ty, nil
 		}
-		ki, vi := t.col("k"), t.col("ver")
-		var max uint64
-		for _, r := range t.Rows {
-			if r[ki] == st.WhereVal {
-				v, _ := strconv.ParseUint(r[vi], 10, 64)
-				if v > max {
-					max = v
-				}
+		best := rows[0][i]
+		for _, r := range rows[1:] {
+			if (e.Func == "max" && lessVersion(best, r[i])) || (e.Func == "min" && lessVersion(r[i], best)) {
+				best = r[i]
 			}
 		}
-		// an aggregate without GROUP BY always returns one row (0 for an empty set)
-		return []string{"ver"}, []string{"UInt64"}, [][]string{{strconv.FormatUint(max, 10)}}, nil
-	case "select_setting":
-		t, err := readable(st.Name)
+		return best, ty, nil
+	case "argmax", "argmin":
+		vi, err := colIdx(e.Args[0])
 		if err != nil {
-			return nil, nil, nil, err
+			return "", "", err
 		}
-		if err := need(t, "fingerprint", "value", "name", "inserted_at"); err != nil {
-			return nil, nil, nil, err
+		ki, err := colIdx(e.Args[1])
+		if err != nil {
+			return "", "", err
 		}
-		fi, vi, ni, ti := t.col("fingerprint"), t.col("value"), t.col("name"), t.col("inserted_at")
-		var best []string
-		for _, r := range t.Rows {
-			if r[fi] != st.WhereVal {
-				continue
-			}
-			if best == nil || lessVersion(best[ti], r[ti]) { // argMax keeps the first maximum
+		ty := t.Columns[vi].Type
+		if len(rows) == 0 {
+			return def(ty), ty, nil
+		}
+		best := rows[0]
+		for _, r := range rows[1:] { // the first extremum is kept
+			if (e.Func == "argmax" && lessVersion(best[ki], r[ki])) || (e.Func == "argmin" && lessVersion(r[ki], best[ki])) {
 				best = r
 			}
 		}
-		if best == nil || best[ni] == "" {
-			return []string{"_value"}, []string{"String"}, nil, nil
+		return best[vi], ty, nil
+	}
+	return "", "", unknown("aggregate %s", e.Func)
+}
+
+// selectRows evaluates a parsed SELECT over the (resolved) table.
+func (s *State) selectRows(cur string, st *Stmt) (cols []string, types []string, out [][]string, err error) {
+	t, err := s.ReadTarget(cur, st.Name)
+	if err != nil {
+		return nil, nil, nil, err
+	}
+	// WHERE
+	var rows [][]string
+	type flt struct {
+		i   int
+		c   Cmp
+		num bool
+	}
+	var fs []flt
+	for _, c := range st.Where {
+		i := t.col(c.L.Args[0])
+		if i < 0 {
+			return nil, nil, nil, chErr(47, "UNKNOWN_IDENTIFIER", t.Name, "Missing columns: '%s' while processing query", c.L.Args[0])
 		}
-		return []string{"_value"}, []string{"String"}, [][]string{{best[vi]}}, nil
-	case "select_count":
-		t, err := readable(st.Name)
-		if err != nil {
-			return nil, nil, nil, err
+		fs = append(fs, flt{i, c, numericType(t.Columns[i].Type)})
+	}
+	for _, r := range t.Rows {
+		ok := true
+		for _, f := range fs {
+			if sameValue(r[f.i], f.c.Val, f.num) == f.c.Neq {
+				ok = false
+				break
+			}
 		}
-		return []string{"count(1)"}, []string{"UInt64"}, [][]string{{strconv.Itoa(len(t.Rows))}}, nil
+		if ok {
+			rows = append(rows, r)
+		}
+	}
+	hasAgg := len(st.Having) > 0
+	for _, it := range st.Items {
+		hasAgg = hasAgg || it.Func != ""
+	}
+	for _, it := range st.Items {
+		name := it.Alias
+		if name == "" {
+			name = it.Text
+		}
+		cols = append(cols, name)
+	}
+	if !hasAgg && len(st.GroupBy) == 0 {
+		for _, it := range st.Items {
+			i := t.col(it.Args[0])
+			if i < 0 {
+				return nil, nil, nil, chErr(47, "UNKNOWN_IDENTIFIER", t.Name, "Missing columns: '%s' while processing query", it.Args[0])
+			}
+			types = append(types, t.Columns[i].Type)
+		}
+		for _, r := range rows {
+			var o []string
+			for _, it := range st.Items {
+				o = append(o, r[t.col(it.Args[0])])
+			}
+			out = append(out, o)
+		}
+		return cols, types, out, nil
+	}
+	// grouping
+	var gidx []int
+	for _, g := range st.GroupBy {
+		i := t.col(g)
+		if i < 0 {
+			return nil, nil, nil, chErr(47, "UNKNOWN_IDENTIFIER", t.Name, "Missing columns: '%s' while processing query", g)
+		}
+		gidx = append(gidx, i)
+	}
+	var groups [][][]string
+	if len(gidx) == 0 {
+		groups = [][][]string{rows} // an aggregate without GROUP BY always yields one row, also for an empty set
+	} else {
+		pos := map[string]int{}
+		for _, r := range rows {
+			var kb strings.Builder
+			for _, i := range gidx {
+				kb.WriteString(r[i])
+				kb.WriteByte(0x1f)
+			}
+			j, ok := pos[kb.String()]
+			if !ok {
+				j = len(groups)
+				pos[kb.String()] = j
+				groups = append(groups, nil)
+			}
+			groups[j] = append(groups[j], r)
+		}
+	}
+	evalExpr := func(e SelExpr, g [][]string) (string, string, error) {
+		if e.Func != "" {
+			return evalAgg(t, e, g)
+		}
+		i := t.col(e.Args[0])
+		if i < 0 {
+			return "", "", chErr(47, "UNKNOWN_IDENTIFIER", t.Name, "Missing columns: '%s' while processing query", e.Args[0])
+		}
+		grouped := false
+		for _, gi := range gidx {
+			grouped = grouped || gi == i
+		}
+		if !grouped {
+			return "", "", chErr(215, "NOT_AN_AGGREGATE", t.Name, "Column %s is not under aggregate function and not in GROUP BY", e.Args[0])
+		}
+		if len(g) == 0 {
+			return "", t.Columns[i].Type, nil
+		}
+		return g[0][i], t.Columns[i].Type, nil
+	}
+	for gi, g := range groups {
+		keep := true
+		for _, h := range st.Having {
+			v, ty, err := evalExpr(h.L, g)
+			if err != nil {
+				return nil, nil, nil, err
+			}
+			if sameValue(v, h.Val, numericType(ty)) == h.Neq {
+				keep = false
+			}
+		}
+		var o []string
+		for _, it := range st.Items {
+			v, ty, err := evalExpr(it, g)
+			if err != nil {
+				return nil, nil, nil, err
+			}
+			o = append(o, v)
+			if gi == 0 {
+				types = append(types, ty)
+			}
+		}
+		if keep {
+			out = append(out, o)
+		}
+	}
+	if len(groups) == 0 {
+		for _, it := range st.Items {
+			_, ty, err := evalExpr(it, nil)
+			if err != nil {
+				return nil, nil, nil, err
+			}
+			types = append(types, ty)
+		}
+	}
+	return cols, types, out, nil
+}
+
+// Query evaluates a recognised SELECT/SHOW statement: column names, ClickHouse types and rows (values as strings).
+func (s *State) Query(cur string, st *Stmt) (cols []string, types []string, rows [][]string, err error) {
+	switch st.Kind {
+	case "select":
+		return s.selectRows(cur, st)
 	case "show_tables":
 		if _, ok := s.DBs[cur]; !ok {
 			return nil, nil, nil, chErr(81, "UNKNOWN_DATABASE", "", "Database %s does not exist", cur)
@@ -593,4 +763,24 @@ func (s *State) Query(cur string, st *Stmt) (cols []string, types []string, rows
 		return []string{"statement"}, []string{"String"}, [][]string{{"CREATE DATABASE " + st.Name.Name + "\nENGINE = Atomic"}}, nil
 	}
 	return nil, nil, nil, unknown("Query of statement kind %s", st.Kind)
+}
+
+// WriteTarget names the table a non-SELECT statement changes (INSERT through a Distributed table: the local table).
+// Computed before the statement is applied; "" when there is none (CREATE DATABASE) or it cannot be resolved.
+func (s *State) WriteTarget(cur string, st *Stmt) string {
+	if st.Kind == "create_database" {
+		return ""
+	}
+	db, n, err := s.resolve(cur, st.Name)
+	if err != nil {
+		return st.Name.Name
+	}
+	if st.Kind == "insert" {
+		if t := s.DBs[db][n]; t != nil && t.Engine == "Distributed" {
+			if lt, err := s.distTarget(t); err == nil {
+				return lt.Name
+			}
+		}
+	}
+	return n
 }
